@@ -432,6 +432,9 @@ func (p *parser) parseDotMember(left ast.Expression) ast.Expression {
 		return &ast.BadExpression{From: period, To: p.idx}
 	}
 
+	// The name ends a MemberExpression whatever class of token the lexer made of it
+	// (reserved words are allowed here), so a following line terminator can end the statement.
+	p.insertSemicolon = true
 	p.next()
 
 	return &ast.DotExpression{
